@@ -163,6 +163,13 @@ def base_grammars():
     g.min_n = 4
     gs.append(g)
 
+    # right-recursive lists inside two kinds of brackets: the reduce lookahead of the list is merged over both closers, so a wrong closer
+    # is only rejected after a reduction chain as long as the list
+    gs.append(Grammar("brackets2", terms("[ ] ( ) x"), [
+        NT("D", [A("[", "I", "]"), A("(", "I", ")")], pub=True),
+        NT("I", [A("x", "I"), A("x")]),
+    ], tags=["right recursion under merged lookahead", "reduction chain proportional to the input before an error"]))
+
     gs.append(Grammar("palin", terms("a b c"), [
         NT("P", [A("a", "P", "a"), A("b", "P", "b"), A("c")], pub=True),
     ], tags=["center-marked palindromes", "deep stack"]))
